@@ -87,6 +87,24 @@ CLAIMED = {
             "battery-level identity it rests on is C01.",
             "Lean 4 proof (sum identity, losses) + exact/Float differential correspondence + trace oracle on real runs",
             "DESIGN.md §4 C06"),
+    "C07": ("Bucket index = max 0 ceil((signal-start)/dt) with 'kept iff < n', the step at which each event takes "
+            "effect (first step at/after its start and not before it was signalled; exactly once), the value in force = "
+            "last applied event in (start, arrival) order, series tail = 0, chronological application of past events at "
+            "step 0, only events with bucket >= n are ignored, and cur_max = min(rating, latest limit) (falsy rating stated "
+            "separately) are Lean theorems by induction over steps with a queue invariant, for the model of events.py and "
+            "Strategy.step. The model runs exactly (Int microseconds, rational values) against the real Events / "
+            "get_event_steps / Strategy.step, world state compared after every step, bounded-exhaustive on a 1/3-step time "
+            "lattice plus random histories and the CSV readers on generated files.",
+            "Lean 4 proof (induction over steps, queue invariant) + exact differential correspondence, bounded-exhaustive",
+            "DESIGN.md §4 C07"),
+    "C08": ("Arrival (SoC + soc_delta once, station/ETD/desired as announced, negative-SoC tracker and ALLOW/RESET "
+            "policy, RuntimeError otherwise), departure (disconnect, ETD cleared, counters with EPS and margin), counters = "
+            "number of such departures over arbitrary histories, event processing never changes the SoC of another "
+            "vehicle (past-departure rule stated as the one exception), and an error in event processing is latched: Lean "
+            "theorems by induction over arbitrary event sequences. Exact correspondence with the real Strategy.step and "
+            "Scenario.run on bounded-exhaustive vehicle-event sequences x option combinations x margins.",
+            "Lean 4 proof (induction over event histories) + exact differential correspondence, bounded-exhaustive",
+            "DESIGN.md §4 C08"),
     "C09": ("For the two modelled strategies: balanced's plan is a constant power that reaches the desired SoC exactly at "
             "the announced departure when every planned power is accepted (constant curve, admissible power), with the "
             "remaining-steps count proved to be the ceiling of the remaining time; greedy offers min(needed, available) "
